@@ -128,22 +128,45 @@ def timeRangeOfTimestamp (c : Calc) (t : Int) : TimeRange :=
   let familyStartTime := calcFamilyStartTime c segmentTime family
   { start := familyStartTime, stop := calcFamilyEndTime c familyStartTime }
 
-/-- `familyQueryTimeRange` of `segment.GetDataFamilies(timeRange)` -/
-def familyQueryTimeRange (c : Calc) (base : Int) (q : TimeRange) : TimeRange :=
-  { start := calcFamilyStartTime c base (calcFamily c q.start base)
-    stop := calcFamilyStartTime c base (calcFamily c q.stop base) }
+/-- how `segment.GetDataFamilies` truncates the query range to family start times -/
+inductive LookupVariant where
+  /-- before fix 8adefd6: `CalcFamilyStartTime(s.baseTime, CalcFamily(ts, s.baseTime))`, i.e. the
+  family *number* of the query's start/end re-applied to this segment's base time -/
+  | perSegment
+  /-- current code: `calc.CalcFamilyTime(ts)`, the family start in the timestamp's own segment -/
+  | ownSegment
+  deriving DecidableEq, Repr
+
+/-- the variant selected by the source text of the two range expressions (regenerated fact
+`Generated.C13.gdfRangeExprs`); `none` = unknown code -/
+def lookupVariantOf : List String → Option LookupVariant
+  | ["calc.CalcFamilyTime(timeRange.Start)", "calc.CalcFamilyTime(timeRange.End)"] => some .ownSegment
+  | ["calc.CalcFamilyStartTime(s.baseTime, calc.CalcFamily(timeRange.Start, s.baseTime))",
+     "calc.CalcFamilyStartTime(s.baseTime, calc.CalcFamily(timeRange.End, s.baseTime))"] => some .perSegment
+  | _ => none
+
+/-- `familyQueryTimeRange` of `segment.GetDataFamilies(timeRange)` in the segment with base time `base` -/
+def familyQueryTimeRange (v : LookupVariant) (c : Calc) (base : Int) (q : TimeRange) : TimeRange :=
+  match v with
+  | .perSegment =>
+    { start := calcFamilyStartTime c base (calcFamily c q.start base)
+      stop := calcFamilyStartTime c base (calcFamily c q.stop base) }
+  | .ownSegment =>
+    { start := calcFamilyTime c q.start, stop := calcFamilyTime c q.stop }
 
 /-- `intervalSegment.GetDataFamilies(q)` → `segment.GetDataFamilies` over the families that exist
 for the timestamps `ts` (one family per distinct `(segment, family)`; no segment expired):
-a segment is visited when its base time lies in `[CalcSegmentTime(q.start), q.stop]`, and inside it
-a family is returned when `familyQueryTimeRange` overlaps the family's range.
-Result: the start times of the returned families (unsorted, with repetitions). -/
-def getDataFamilies (c : Calc) (q : TimeRange) (ts : List Int) : List Int :=
+a segment is visited when its base time lies in `[CalcSegmentTime(q.start), q.stop]`
+(`segmentQueryTimeRange.Contains(segmentTime)`), it is asked for
+`segmentQueryTimeRange.Intersect(q)`, and inside it a family is returned when
+`familyQueryTimeRange.Overlap(family.TimeRange())`.
+Result: the start times of the returned families (in `ts` order, with repetitions). -/
+def getDataFamilies (v : LookupVariant) (c : Calc) (q : TimeRange) (ts : List Int) : List Int :=
   let segQ : TimeRange := { start := calcSegmentTime c q.start, stop := q.stop }
   let fq := segQ.intersect q
   (ts.filter fun t =>
       let base := calcSegmentTime c t
-      segQ.contains base && (familyQueryTimeRange c base fq).overlap (timeRangeOfTimestamp c t)).map
+      segQ.contains base && (familyQueryTimeRange v c base fq).overlap (timeRangeOfTimestamp c t)).map
     fun t => (timeRangeOfTimestamp c t).start
 
 /-- `Interval.CalcSlotRange(familyTime, timeRange)`; the `uint16(...)` conversions keep the low
@@ -155,6 +178,62 @@ def calcSlotRange (i familyTime : Int) (q : TimeRange) : Option (Int × Int) :=
   match calcSlot c rs.start familyTime i, calcSlot c rs.stop familyTime i with
   | some a, some b => some (a % 65536, b % 65536)
   | _, _ => none
+
+/-! ### broker row grouping (series/metric/row_broker.go, one shard) -/
+
+/-- rows (timestamps) sorted ascending: `sort.Sort(familySortedRows)`; the result of sorting
+timestamps does not depend on the algorithm -/
+def insertAsc (x : Int) : List Int → List Int
+  | [] => [x]
+  | y :: r => if x ≤ y then x :: y :: r else y :: insertAsc x r
+
+def sortAsc (l : List Int) : List Int := l.foldr insertAsc []
+
+/-- `HasNextFamily`/`NextFamily` loop over the sorted rows: the group of the first remaining row is
+the maximal prefix inside `timeRangeOfTimestamp(first)`, handed out under
+`familyTimeOfTimestamp(first)` (`fuel` ≥ number of rows). When the first row is outside its own
+range the Go loop returns `groupStart < groupEnd = false` and the iteration ends: mirrored by
+returning no further group. -/
+def groupSorted (c : Calc) : Nat → List Int → List (Int × List Int)
+  | 0, _ => []
+  | _, [] => []
+  | fuel + 1, t :: rest =>
+    let r := timeRangeOfTimestamp c t
+    let run := (t :: rest).takeWhile r.contains
+    if run.isEmpty then [] else
+    (calcFamilyTime c t, run) :: groupSorted c fuel ((t :: rest).dropWhile r.contains)
+
+/-- `BrokerBatchShardFamilyIterator.reset` + iteration: fast path when every row lies in the family
+range of the first row (rows stay in batch order), otherwise sort by timestamp and group -/
+def groupFamilies (c : Calc) (ts : List Int) : List (Int × List Int) :=
+  match ts with
+  | [] => []
+  | t :: rest =>
+    if rest.all (timeRangeOfTimestamp c t).contains then [(calcFamilyTime c t, t :: rest)]
+    else groupSorted c (t :: rest).length (sortAsc (t :: rest))
+
+/-! ### rollup relation (kv/family_rollup.go) -/
+
+/-- `newRollup(source, target, familyStartTime, fSTime)` as `family.rollup` builds it: the target
+family start is `CalcFamilyStartTime(CalcSegmentTime(f), CalcFamily(f, ..))` of the *target*
+interval's calculator at the source family start `f` -/
+def rollupTargetFamilyTime (target sourceFTime : Int) : Int :=
+  calcFamilyTime (intervalType target) sourceFTime
+
+/-- `rollup.GetTimestamp(slot)` -/
+def rollupGetTimestamp (source sourceFTime slot : Int) : Int := sourceFTime + slot * source
+
+/-- `rollup.CalcSlot(timestamp)` (`uint16(...)` keeps the low 16 bits); `none` = division by zero -/
+def rollupCalcSlot (target targetFTime t : Int) : Option Int :=
+  (calcSlot (intervalType target) t targetFTime target).map (· % 65536)
+
+/-- `rollup.BaseSlot()` -/
+def rollupBaseSlot (target sourceFTime targetFTime : Int) : Option Int :=
+  rollupCalcSlot target targetFTime sourceFTime
+
+/-- `rollup.IntervalRatio()`; `none` = division by zero -/
+def rollupIntervalRatio (source target : Int) : Option Int :=
+  if source = 0 then none else some (Int.tdiv target source % 65536)
 
 /-! ### query planning -/
 
